@@ -199,13 +199,28 @@ func CheckStringTypeChanges(diffs []TypeDiff, type1, type2 *spec.SchemaProps) []
 			diffs = addTypeDiff(diffs, TypeDiff{Change: ChangedType, Description: fmt.Sprintf("Pattern Changed:%s->%s", type1.Pattern, type2.Pattern)})
 		}
 		if type1.Type[0] == StringType {
-			if len(type1.Enum) > 0 {
+			switch {
+			case len(type1.Enum) > 0 && len(type2.Enum) > 0:
 				enumDiffs := CompareEnums(type1.Enum, type2.Enum)
 				diffs = append(diffs, enumDiffs...)
+			case len(type2.Enum) > 0:
+				// any string was accepted, only the listed ones are now: a constraint has been added
+				diffs = append(diffs, TypeDiff{Change: AddedConstraint, Description: enumConstraint(type2.Enum)})
+			case len(type1.Enum) > 0:
+				// and the other way round
+				diffs = append(diffs, TypeDiff{Change: DeletedConstraint, Description: enumConstraint(type1.Enum)})
 			}
 		}
 	}
 	return diffs
+}
+
+func enumConstraint(enum []interface{}) string {
+	values := make([]string, 0, len(enum))
+	for _, each := range enum {
+		values = append(values, fmt.Sprintf("%v", each))
+	}
+	return fmt.Sprintf("Enum(%s)", strings.Join(values, ","))
 }
 
 // CheckToFromRequired checks for changes to or from a required property
